@@ -491,16 +491,11 @@ fn parse_required(arg: &str, def: &str, defs: &[String]) -> Option<Value> {
 }
 
 fn parse_positional(arg: &str, def: &str) -> Value {
-    let key = match def.starts_with('<') {
-        // safe unwrap: Must be a positional argument definition
-        true => def
-            .strip_prefix('<')
-            .unwrap()
-            .split_once('>')
-            .unwrap()
-            .0
-            .to_owned(),
-        false => def.strip_suffix('+').unwrap_or(def).to_lowercase(),
+    // a definition such as `<fooBAR` is classified as positional by its uppercase tail although
+    // it has no closing `>`: treat it like an uppercase positional instead of panicking
+    let key = match def.strip_prefix('<').and_then(|d| d.split_once('>')) {
+        Some((name, _)) => name.to_owned(),
+        None => def.strip_suffix('+').unwrap_or(def).to_lowercase(),
     }
     .replace('-', "_");
 
